@@ -1049,6 +1049,7 @@ func genFacts(repo string) string {
 	sb.WriteString(genCloseFacts(repo)) // C03: close-path facts (closefacts.go)
 	// (7…) facts for C10 (dispatch guards, typed errors, owner check): c10facts.go
 	sb.WriteString(genFactsC10(repo, fset, load))
+	sb.WriteString(genFactsC06(repo, fset, load)) // C06: replay cache consultation facts (c06facts.go)
 	sb.WriteString("\nend Mieru.Gen.Facts\n")
 	return sb.String()
 }
